@@ -1,6 +1,31 @@
 """Per-property manifest entries (edited by hand, rendered by mkmanifest.py)."""
 T_PBT = "property-based testing (Hypothesis): "
 CHECKS = {
+ "C04": {
+  "technique": T_PBT + "metamorphic relations (frame rotation, lattice two-folds) at rate level and over paired integrated histories",
+  "text": "Metamorphic search: for generated solver inputs and generated proper rotations Q, derivatives(QLQ^T, A Q^T) must equal (Adot Q^T, fdot) to 1e-10; for generated grain subsets and two-folds S, derivatives(S A) = (S Adot, fdot) to 1e-13. Paired Mineral histories in original and rotated frame (tight solver tolerances through the documented kwargs, compared at 1e-6 incl. Q^T F' Q = F) and symmetry-relabelled histories (default tolerances, 1e-9). Exploration only.",
+  "note": "Activity ties and grains within 1e-6 of the sliding threshold are excluded and counted (model discontinuities). No-slip grains are included (this found the dropped rigid rotation).",
+ },
+ "C05": {
+  "technique": T_PBT + "metamorphic relation (time rescaling by k in 1e-19..1e19) over paired generated histories",
+  "text": "Each generated history is run at two strain-rate scales 10^u, 10^u2 (u,u2 in [-16,3]) with the time axis compressed accordingly; all snapshots and F must agree within the statement's solver-tolerance bound; the observed maximum difference (1e-12 class) is reported.",
+  "note": "Bound is loose by the statement's own wording; a single dropped or doubled scaling moves textures by O(0.1-1) for |log10 k|>=1.",
+ },
+ "C07": {
+  "technique": T_PBT + "invariant over generated histories under null forcing; exhaustive ordinal grid; single-fault injection for failed updates",
+  "text": "Generated histories with L==0, viscosity-bound regimes (constructor and callback), M*=0: snapshots unchanged (1e-12 / 1e-9) while F follows an independent ODE solution. Solver-level ordinal grid regime -2..10 x phase 0..3 x fabric 0..7 enumerated per generated texture (raise vs finite arrays). Failed updates (unsupported regime via constructor or callback mid-interval, invalid fabric/phase, velocity-gradient callable raising mid-interval, after 0..3 good updates): must raise and leave stored history byte-identical.",
+  "note": "Invalid phase/fabric only required to raise in regimes that look them up (dislocation-type). chi set to 0 when an initial fraction is below chi/n (C09's floor would legitimately act).",
+ },
+ "C08": {
+  "technique": T_PBT + "differential/metamorphic relations over multiphase histories; generated interleavings of update queues (stateful)",
+  "text": "Generated two-phase assemblages in both orders with fractions k/1000: (a) multiphase = single-phase with M* x own fraction (solver-tolerance bound) plus exact observation that the solver receives the listed fraction of the mineral's own phase; (b)(c)(e) list permutation, mineral order in update_all (identical F inputs per step), bulk vs separate, twins: byte-identical; (d) 2..4 minerals with own update queues run in a generated interleaving vs isolated: byte-identical.",
+  "note": "Observation of the solver argument uses the public module attribute pydrex.core.derivatives (looked up at call time). F across mineral orders only agrees at solver tolerance (integrated with a different mineral).",
+ },
+ "C09": {
+  "technique": T_PBT + "differential testing of apply_gbs against a reference written from the statement; invariant over generated histories with an observed sliding step",
+  "text": "apply_gbs vs 5-line numpy reference on generated inputs incl. exact threshold ties, all/none floored (byte-equality of orientations, fractions to 1e-13, bound chi/(n(1+chi)), ordering, chi=0). History level: updates with chi in [0.2,0.9], M*>=50; after every update the stored snapshot equals floor+renormalise of the integrated state, floored grains hold the start-of-update orientation byte-for-byte, reference orientations handed to the sliding step are the start-of-update snapshot.",
+  "note": "Integrated pre-floor state observed via the public attribute pydrex.utils.apply_gbs (last call of each update).",
+ },
  "C01": {
   "technique": T_PBT + "model-based update histories (generated operation sequences) with a validity invariant after every step",
   "text": "Generated update histories (mineral x accepted regime x texture x parameters x velocity-gradient history x pathline x partition into 1..100 updates issued via update_orientations / update_all / regime-switching callback) with the snapshot-validity invariant of the statement (shape, finiteness, simplex, entries in [-1,1], handedness, max|A.A^T-I| <= 5e-3+1e-3(N+2 strain), append-only, earlier snapshots byte-identical) checked after every update; default-constructed minerals checked for validity and seed reproducibility. Exploration: hundreds of histories per quick run, no proof.",
